@@ -277,6 +277,72 @@ func opsOf(e *fexpr) string {
 
 // importedFeatures: if-feature inside a grouping of an imported module follows that module's features under
 // the same allow / deny configuration.
+// importedDeviation: a module that deviates nodes of a module it imports: the imported module's tree is what changes, for
+// walks and for lookups by name alike
+func (p c11) importedDeviation(c *core.Ctx) {
+	base := "module base { namespace \"urn:base\"; prefix b; revision 2020-01-01;\n" +
+		"  container c { leaf plain { type string; } leaf keep { type string; } choice ch { case k { leaf l { type string; } leaf l2 { type string; } } } list li { key k; leaf k { type string; } leaf v { type string; } } } }\n"
+	all := []struct {
+		path string
+		gone []string
+	}{{"/b:c/b:ch/b:k/b:l", []string{"c/l", "c/ch/k/l"}}, {"/b:c/b:plain", []string{"c/plain"}}, {"/b:c/b:li/b:v", []string{"c/li/v"}}}
+	// one deviation at a time (the node in the case is then the only thing its container loses), and all together
+	for variant := 0; variant <= len(all); variant++ {
+		devs := all
+		if variant < len(all) {
+			devs = all[variant : variant+1]
+		}
+		main := "module main { namespace \"urn:main\"; prefix m; import base { prefix b; } revision 2020-01-01;\n"
+		var gone []string
+		for _, d := range devs {
+			main += "  deviation \"" + d.path + "\" { deviate not-supported; }\n"
+			gone = append(gone, d.gone...)
+		}
+		main += "  leaf own { type string; } }\n"
+		opener := func(name, ext string) (io.Reader, error) {
+			switch name {
+			case "base":
+				return strings.NewReader(base), nil
+			case "main":
+				return strings.NewReader(main), nil
+			}
+			return nil, nil
+		}
+		c.Eval()
+		c.Shape("deviation/imported-module/%d", variant)
+		var m *meta.Module
+		var err error
+		if c.Guard("load imported deviation", func() { m, err = parser.LoadModule(opener, "main") }) {
+			continue
+		}
+		if err != nil {
+			c.Violate("deviation/imported-module/load-error", "%v\n%s%s", err, main, base)
+			continue
+		}
+		imp := m.Imports()["b"]
+		if imp == nil || imp.Module() == nil {
+			c.Violate("deviation/imported-module/no-import", "the import of base is not there\n%s", main)
+			continue
+		}
+		bm := imp.Module()
+		for _, g := range gone {
+			if meta.Find(bm, g) != nil {
+				c.Violate("deviation/imported-module/still-found", "base:%s is not-supported by a deviation of main and is still found by name\n%s%s", g, main, base)
+			}
+		}
+		for _, stays := range []string{"c/keep", "c/l2", "c/li/k"} {
+			if meta.Find(bm, stays) == nil {
+				c.Violate("deviation/imported-module/lost", "base:%s is not deviated and is not found\n%s%s", stays, main, base)
+			}
+		}
+		if _, w := walk.Dump(bm); w != nil {
+			for _, pr := range w.Problems {
+				c.Violate("deviation/imported-module/by-name/"+strings.SplitN(pr, ":", 2)[0], "%s\n%s%s", pr, main, base)
+			}
+		}
+	}
+}
+
 func (p c11) importedFeatures(c *core.Ctx) {
 	imp := "module imp { namespace \"urn:imp\"; prefix imp; revision 2020-01-01; feature x; feature y;\n" +
 		"  grouping g { leaf gx { if-feature x; type string; } leaf gnx { if-feature \"not x\"; type string; } leaf gy { if-feature \"x or y\"; type string; } leaf gplain { type string; } } }\n"
@@ -345,6 +411,9 @@ func (p c11) importedFeatures(c *core.Ctx) {
 func (p c11) kinds(c *core.Ctx, k int) {
 	if k%12 == 0 {
 		p.importedFeatures(c)
+	}
+	if k%12 == 6 {
+		p.importedDeviation(c)
 	}
 	exprs := allExprs(2)
 	e := exprs[(k*7)%len(exprs)]
